@@ -399,6 +399,32 @@ theorem updateSh_ok (hs : StrictTotal lt) {b : BM K V} (hI : Inv lt b) (chain : 
         · intro r hr'; exact ⟨hr', fun e => hnr (e ▸ hr')⟩
         · intro r; exact ⟨fun hr' => ⟨hr', fun e => hnr (e ▸ hr')⟩, fun h => h.1⟩
 
+/-! ### the id of a map never changes during a history -/
+theorem updateWith_ptr (sh : UpdateShape) (b : BM K V) (k : K) (v prev : Option V) :
+    (updateWith sh lt b k v prev).ptr = b.ptr := by
+  unfold updateWith
+  cases prev <;> cases v <;> rfl
+
+theorem stepSh_ptr (sh : UpdateShape) (chain : K → Option V) (b : BM K V) (op : Op K V) :
+    (stepSh sh lt chain b op).2.ptr = b.ptr := by
+  cases op <;> simp only [stepSh, updateSh, updateWith_ptr]
+
+theorem runSh_ptr (sh : UpdateShape) (chain : K → Option V) (ops : List (Op K V)) (b : BM K V) :
+    (runSh sh lt chain b ops).2.ptr = b.ptr := by
+  induction ops generalizing b with
+  | nil => rfl
+  | cons op ops ih => simp only [runSh, ih, stepSh_ptr]
+
+theorem run_ptr (chain : K → Option V) (ops : List (Op K V)) (b : BM K V) (r : List (Obs V) × BM K V)
+    (h : Impl.BigMap.run lt chain b ops = some r) : r.2.ptr = b.ptr := by
+  unfold Impl.BigMap.run at h
+  cases hc : config with
+  | none => rw [hc] at h; cases h
+  | some sh =>
+    rw [hc] at h
+    simp only [Option.map_some, Option.some.injEq] at h
+    rw [← h]; exact runSh_ptr sh chain ops b
+
 /-! ### literals accepted by `check_constraints` -/
 theorem toSet_length_le (xs : List K) : (toSet xs).length ≤ xs.length := by
   induction xs with
